@@ -83,16 +83,25 @@ func genD(r *vf.Run, pool *basePool, idx, k int) *input {
 		}
 		o.Len = int64(rng.Pick(1, 2, int(p.ChunkSize), int(p.ChunkSize)+1, 3*int(p.ChunkSize)+1, 1000, 65536))
 		if o.Kind == "cache" && rng.Chance(1, 4) {
-			o.Len = []int64{-1, 0, size * 2, 1 << 40, 1 << 62, -(1 << 62)}[rng.Intn(6)]
-			if p.PrefetchChunk > 0 && o.Len > size*4 {
-				// with prefetch_chunk_size configured Cache() loops over [off, off+len) in
-				// prefetchChunk steps; see NOTES.md (kept inside the blob here, the unbounded
-				// variant is exercised by the directed landmark TOC through layer.Prefetch)
-				o.Len = size * 3
-			}
+			// In the daemon the length handed to Cache is the configured prefetch size or the
+			// landmark offset, both limited by the size the registry reported. Keep the
+			// harness-chosen argument in that domain (the registry lying about the size is
+			// the directed plan "size-lie").
+			o.Len = []int64{-1, 0, size * 2, size * 3, -(1 << 62)}[rng.Intn(5)]
 		}
 		o.Conc = rng.Pick(1, 1, 2, 4)
 		p.Ops = append(p.Ops, o)
+	}
+	if k >= len(hostileKinds)*2 && k < len(hostileKinds)*2+6 {
+		// directed "size-lie": the registry reports a gigantic blob and the (equally
+		// untrusted) prefetch landmark asks for a gigantic prefix of it
+		p.Focus, p.HostileOf10 = "head-cl-huge", 10
+		p.ChunkSize = int64([]int{50000, 512, 50000, 4096, 64, 50000}[k-len(hostileKinds)*2])
+		p.PrefetchChunk = 0
+		if k%2 == 1 {
+			p.PrefetchChunk = p.ChunkSize * 4
+		}
+		p.Ops = []blobOp{{Kind: "cache", Off: 0, Len: 1 << 60, Conc: 1}, {Kind: "readat", Off: 1 << 40, Len: 100, Conc: 1}, {Kind: "cache", Off: 1 << 39, Len: 1 << 38, Conc: 1}}
 	}
 	p.Ops = append(p.Ops, blobOp{Kind: "close"}, blobOp{Kind: "readat", Off: 0, Len: 10, Conc: 1})
 	return &input{Idx: idx, Gen: "d", Framing: b.Framing, Host: p,
